@@ -108,6 +108,15 @@ def run_case(case, ctx):
         params["k_nn"] = kk
         items = gen.batch_sequence(rng, len(items), items[0].shape[1], size=(kk // 2 + 2, 3 * kk), shift_p=0.5, dup_p=0.0, integer_p=0.0, const_p=0.0)
         ctx.count("nndvi_histories_with_batches_shorter_than_k")
+    coded = False
+    if name in ("HDDDM", "CDBD", "KdqTreeBatch") and rng.random() < 0.12:
+        # bounded integer codes in batches of one size, re-baselined often (ranges and bin counts repeat exactly between references)
+        m_ = int(rng.integers(16, 90))
+        d_ = np.asarray(items[0]).shape[1]
+        hi_ = [int(rng.choice([1, 4, 9])) for _ in range(d_)]
+        items = [np.column_stack([np.r_[0, h_, rng.integers(0, h_ + 1, size=m_ - 2)] for h_ in hi_]).astype(float) for _ in range(len(items))]
+        coded = True
+        ctx.count("histories_of_bounded_integer_codes")
     int_first = False
     sd0_ = np.std(np.asarray(items[0], dtype=float), axis=0) if zoo.kind(name) == "batch" else None
     if zoo.kind(name) == "batch" and rng.random() < 0.15 and bool(np.all(sd0_ > 1e-6 * (np.abs(np.asarray(items[0])).max(axis=0) + 1e-300))):
@@ -132,7 +141,7 @@ def run_case(case, ctx):
         for i, it in enumerate(items):
             if i == 0 and name != "KdqTreeBatch":
                 ops.append(("set_reference", it))
-            elif rng.random() < 0.07 and i > 1:
+            elif rng.random() < (0.3 if coded else 0.07) and i > 1:
                 ops.append(("set_reference", it))
                 if rng.random() < 0.3:
                     ops.append(("set_reference", items[int(rng.integers(0, len(items)))]))
